@@ -139,7 +139,7 @@ let hi2 = lazy (read_bin (!romdir ^ "/HI_ROM_V2.bin"))
 let do_op (o : op) (h : hstate) = run_op (Lazy.force lo1) (Lazy.force hi1) (Lazy.force lo2) (Lazy.force hi2) o h
 
 (* ---- token -> op -------------------------------------------------------- *)
-type tok = Op of op | Run of int | Snap | Final | Note | LoadX of z * z list
+type tok = Op of op | Run of int | Snap | Final | Note | LoadX of z * z list | WriteN of z * int
 
 let parse_tok (t : string) : tok =
   let f = Array.of_list (String.split_on_char ':' t) in
@@ -152,6 +152,7 @@ let parse_tok (t : string) : tok =
   | "wb" -> Op (OpWb (a 1, a 2)) | "wh" -> Op (OpWh (a 1, a 2)) | "ww" -> Op (OpWw (a 1, a 2))
   | "ld" -> Op (OpLoad (a 1, hexbytes f.(2)))
   | "lx" -> LoadX (a 1, hexbytes f.(2))
+  | "wn" -> WriteN (a 1, int_of_z (a 2))
   | "r" -> Op (OpSetReg (a 1, a 2))
   | "st" -> Op OpStep
   | "sx" -> Op OpStepX
@@ -294,6 +295,19 @@ let run_case (toks : string list) : string =
                  end else h := Some hs;
                  emit "p"
                | _ -> h := h'; emit (obs_str "ld" ob))
+            | WriteN (addr, n) ->
+              let cur = ref (Some hs) and res = ref "ok" in
+              (try
+                 for i = 0 to n - 1 do
+                   match !cur with
+                   | Some c ->
+                     let (h', ob) = do_op (OpWb (addr, z_of_int (i land 255))) c in
+                     cur := h';
+                     (match ob with ObOk -> () | _ -> res := obs_str "wb" ob; raise Exit)
+                   | None -> raise Exit
+                 done
+               with Exit -> ());
+              h := !cur; emit !res
             | Note -> emit "-"
             | Snap -> emit (duart_str hs.hm.mbus.duart_)
             | Final -> emit (String.map (fun c -> if c = ' ' then ';' else c) (final_state hs.hm)))) toks
